@@ -43,7 +43,7 @@ def main():
                     confirmed=dict(how="tools/confirm_mutant.sh in a scratch worktree of /repo: demo passes on HEAD, fails with the change; "
                                        "cargo test --workspace --offline --no-fail-fast passes with the change (401 passed, 0 failed)",
                                    results_file="see DESIGN.md section 12"),
-                    ran="tools/run_mutant.sh seeded/%s-%s/patch.diff %s" % (pid, v, pid), detected_by=m["detected_by"])
+                    ran="tools/run_mutant.sh /verif/seeded/%s-%s/patch.diff %s" % (pid, v, pid), detected_by=m["detected_by"])
         json.dump(meta, open(dst + "/meta.json", "w"), indent=1)
     print(sorted(os.listdir("/verif/seeded")))
 main()
